@@ -144,8 +144,8 @@ func runC14(r *Report, rng *rand.Rand, thorough bool) {
 	}
 	var scenarios []map[string]any
 	type meta struct {
-		v                     variant
-		req                   labReq
+		v                    variant
+		req                  labReq
 		n, short, sn, sshort int
 	}
 	metas := map[string]meta{}
